@@ -122,7 +122,7 @@ def worker(prop, tier, seed, widx, nworkers, out, replay=None):
         "inter_cells": {"%s,%s->%s%s" % (k[0], k[1], k[2], "/inner" if k[3] else ""): v for k, v in M.ST.inter_cells.items()},
         "hash_evals": M.ST.hash_evals, "hash_flags": M.ST.hash_flags_total,
         "purity_checks": M.ST.purity_checks, "inv_checked": M.ST.inv_checked,
-        "ctor_counts": dict(M.ST.ctor_counts), "extra": extra, "wall": time.time() - t0,
+        "ctor_counts": dict(M.ST.ctor_counts), "inv_internal": dict(M.ST.inv_internal), "extra": extra, "wall": time.time() - t0,
     }
     with open(out, "w") as f:
         json.dump(rep, f)
@@ -198,6 +198,7 @@ def run(prop, tier, seed, nworkers=None, keep=False):
     inter_cells = Counter()
     raises = Counter()
     ctor = Counter()
+    inv_internal = Counter()
     funcs = set()
     viols = []
     samples = []
@@ -215,6 +216,7 @@ def run(prop, tier, seed, nworkers=None, keep=False):
         inter_cells.update(r["inter_cells"])
         raises.update(r["raises"])
         ctor.update(r["ctor_counts"])
+        inv_internal.update(r.get("inv_internal", {}))
         funcs.update(r["funcs"])
         stopped[r["stopped"]] += 1
         for v in r["violations"]:
@@ -308,7 +310,8 @@ def run(prop, tier, seed, nworkers=None, keep=False):
             "intersection_calls_observed": dict(sorted(inter_cells.items())),
             "monitor_counters": {"hash_evaluations_observed": tot["hash_evals"], "hash_boundary_flags": tot["hash_flags"],
                                  "purity_snapshot_pairs": tot["purity_checks"], "invariant_evaluations": tot["inv_checked"],
-                                 "constructor_and_move_hook_events": dict(ctor)},
+                                 "constructor_and_move_hook_events": dict(ctor),
+                                 "internal_object_invariant_diagnostics(sampled, not a verdict)": dict(inv_internal)},
             "violation_keys": dict(viol_keys),
             "known_findings_hit": sorted(known_hit),
             "workers": len(reports), "workers_lost": len(dead), "worker_stop_reasons": dict(stopped),
